@@ -47,9 +47,12 @@ def add(check, src, name, origin):
 
 def main():
     only = None
+    as_check = None  # --as=C13: run another property's check than the one the fixed: line names
     for a in sys.argv[1:]:
         if a.startswith("--only="):
             only = set(a.split("=", 1)[1].split(","))
+        if a.startswith("--as="):
+            as_check = a.split("=", 1)[1]
     if "--seeded" in sys.argv:
         for src in sorted(glob.glob(os.path.join(VERIF, "seeded", "C*-*", "replay.*.json"))):
             name = os.path.basename(os.path.dirname(src))
@@ -66,6 +69,8 @@ def main():
         for check, commit, what in fixed:
             if only and commit not in only:
                 continue
+            if as_check:
+                check = as_check
             dest = os.path.join(VERIF, "regress", check, f"fix-{commit}.json")
             if os.path.exists(dest) and "--force" not in sys.argv:
                 continue
